@@ -285,3 +285,27 @@ class Concat(Shape):
             d = p.concretize(vals, "%s.%d" % (name, i), None)
             out += bytes.fromhex(d["hex"])
         return {"t": "bytes", "hex": out.hex()}
+
+
+class BytesList(Shape):
+    """a list of bytes values of any length (e.g. an identifier registry)"""
+
+    def __init__(self, width=None, replay_max=4):
+        self.width = width
+        self.replay_max = replay_max
+
+    def make(self, ctx, name):
+        from .seqs import SVSeq, VSEQ
+        t = z3.Const(name, VSEQ)
+        ctx.inputs[name + ".len"] = z3.Length(t)
+        for i in range(self.replay_max):
+            ctx.inputs["%s[%d]" % (name, i)] = t[i]
+        return SVSeq(t)
+
+    def concretize(self, vals, name, made):
+        n = min(vals.get(name + ".len") or 0, self.replay_max)
+        items = []
+        for i in range(n):
+            v = vals.get("%s[%d]" % (name, i))
+            items.append({"t": "bytes", "hex": (v if isinstance(v, (bytes, bytearray)) else b"").hex()})
+        return {"t": "list", "items": items}
